@@ -26,6 +26,17 @@ var verifRoot = func() string {
 	return "/verif"
 }()
 
+// outRoot is where evidence/ and replays/ are written. A self-test run against
+// a scratch copy of the repository (VERIF_REPO set: seeded changes, reverted
+// fixes) must never overwrite the evidence of the real tree; its files go
+// under .work/selftest-out instead.
+var outRoot = func() string {
+	if os.Getenv("VERIF_REPO") != "" {
+		return filepath.Join(verifRoot, ".work", "selftest-out")
+	}
+	return verifRoot
+}()
+
 // Agg is the aggregate over all shards, given to Floor and written as evidence.
 type Agg struct {
 	Evals    int64
@@ -491,7 +502,7 @@ func (d *driver) conclude(nshards int) int {
 		}
 		return "", false
 	}
-	rdir := filepath.Join(verifRoot, "replays", p.ID)
+	rdir := filepath.Join(outRoot, "replays", p.ID)
 	os.MkdirAll(rdir, 0o755)
 	var newV, knownV []string
 	for _, k := range a.VOrder {
@@ -619,8 +630,8 @@ func (d *driver) writeEvidence(nshards, nviol int, knownV []string) {
 		ev["assumptions"] = []string{}
 	}
 	b, _ := json.MarshalIndent(ev, "", " ")
-	os.MkdirAll(filepath.Join(verifRoot, "evidence"), 0o755)
-	os.WriteFile(filepath.Join(verifRoot, "evidence", p.ID+".json"), b, 0o644)
+	os.MkdirAll(filepath.Join(outRoot, "evidence"), 0o755)
+	os.WriteFile(filepath.Join(outRoot, "evidence", p.ID+".json"), b, 0o644)
 }
 
 // replayMain: mon replay --prop Cnn --work dir file
